@@ -183,8 +183,9 @@ def load_known():
 
 
 def write_evidence(prop, ev):
-    os.makedirs(os.path.join(ROOT, "evidence"), exist_ok=True)
-    p = os.path.join(ROOT, "evidence", prop + ".json")
+    evdir = os.path.join(ROOT, "evidence") if REPO == "/repo" else os.path.join(BUILD, "evidence_scratch")
+    os.makedirs(evdir, exist_ok=True)
+    p = os.path.join(evdir, prop + ".json")
     for k in ("property_id", "tier", "seed", "level", "coverage", "wall_s"):
         if k not in ev:
             raise Internal("evidence lacks " + k)
@@ -198,10 +199,6 @@ def write_evidence(prop, ev):
         if rc != 0:
             raise Internal("evidence does not validate: " + out[-1500:])
     os.replace(tmp, p)
-    return
-    tmp = p + ".tmp"
-    json.dump(ev, open(tmp, "w"), indent=1, sort_keys=True)
-    os.replace(tmp, p)
 
 
 def write_replay(prop, name, obj):
@@ -213,9 +210,17 @@ def write_replay(prop, name, obj):
 
 
 # per property: which Coq property files decide it, which harness streams tie it to the code
-PROPS = {
-    "C06": dict(coq=["C06"], streams=["C06"], trace=["L2"]),
-}
+def load_props():
+    """one file checker/props/<Cnn>.json per property: {"coq": [property files], "streams": [harness streams],
+    "trace": [Model/Trace<X>.v files the case files import], "extra_targets": [...], "assumptions": [...],
+    "trusted_extra": [...]}"""
+    out = {}
+    for f in sorted(glob.glob(os.path.join(ROOT, "checker", "props", "*.json"))):
+        out[os.path.basename(f)[:-5]] = json.load(open(f))
+    return out
+
+
+PROPS = load_props()
 
 
 def run_check(prop, tier, seed, replay=None):
